@@ -372,6 +372,8 @@ class Walker:
 
     def alias_value(self, expr, frame, env):
         """canonical string if expr is alias-like (access path, constant, inf, inlined call result) else None"""
+        if isinstance(expr, ast.UnaryOp) and isinstance(expr.op, ast.USub) and isinstance(expr.operand, ast.Constant) and isinstance(expr.operand.value, (int, float)):
+            return "-%r" % expr.operand.value          # a negative numeric literal
         if isinstance(expr, ALIAS_TYPES) or is_inf_literal(expr):
             if isinstance(expr, ast.Subscript) and not isinstance(expr.slice, (ast.Constant, ast.Name, ast.Attribute, ast.UnaryOp, ast.BinOp, ast.Subscript)):
                 return None
@@ -473,7 +475,7 @@ class Walker:
             out = []
             for s in states:
                 rv = self.alias_value(st.value, frame, s.env) if st.value is not None else "None"
-                ev = Event("return", st, frame, value=rv, value_node=st.value)
+                ev = Event("return", st, frame, value=rv, value_node=st.value, canon=self.canon(st.value, frame, s.env) if st.value is not None else "None")
                 s = self.emit(s, ev)
                 out.append(s.fork(status="return", ret=rv))
             return out
